@@ -11,9 +11,11 @@ from mc.props import kcommon
 # statement without being a write, which squares the (counter, pending) part of the state space
 ALPHA_SQLITE = ("ins1", "bulk2", "bulk49", "bulk50", "bulk51", "mix", "ups", "rep", "repl", "del", "get", "get_id", "count", "mkB2", "insB2", "updB2", "delB2", "updB1", "clock+11", "delB2x", "updB2x", "staleB2bulk")
 ALPHA_PEEWEE = ("ins1", "bulk2", "bulk51", "mix", "ups", "ups2", "rep", "repl", "del", "delx", "get", "mkB2", "insB2", "updB2", "delB2", "updB1", "delB2x", "updB2x", "staleB2bulk")
+# equivalent-class duplicates left to the thorough tier (a second read flavour, a second bucket-update target)
+QUICK_DROPS = ("get_id", "count", "updB2", "updB2x", "bulk49")
 BOUNDS = {
     "fault_ops": "delete/update of an absent bucket and a bulk insert through a stale handle of a deleted bucket must raise, change nothing, and leave later operations as durable as before",
-    "quick": {"sqlite": list(ALPHA_SQLITE), "peewee": list(ALPHA_PEEWEE), "initial_state": "bucket B1 with 2 single-inserted events, flushed", "deletes": "a second sqlite configuration starts from 70 single-inserted events and explores delete/insert/read only, so that > 64 buffered deletions are reachable"},
+    "quick": {"sqlite": [o for o in ALPHA_SQLITE if o not in QUICK_DROPS], "peewee": list(ALPHA_PEEWEE), "initial_state": "bucket B1 with 2 single-inserted events, flushed", "deletes": "a second sqlite configuration starts from 70 single-inserted events and explores delete/insert/read only, so that > 64 buffered deletions are reachable"},
     "thorough": {"as": "quick", "plus": "clock +1/+9 in the sqlite alphabet, peewee with bulk 49/50 and 101/201-row bulk inserts"},
 }
 RULE = (
@@ -31,7 +33,7 @@ ASSUMPTIONS = [
 
 def configs(ctx):
     c = [
-        {"name": "sqlite/main", "backend": "sqlite", "alphabet": ALPHA_SQLITE + (("clock+1", "clock+9") if ctx.thorough else ()), "cap_s": 900 if ctx.thorough else 240},
+        {"name": "sqlite/main", "backend": "sqlite", "alphabet": (ALPHA_SQLITE + ("clock+1", "clock+9")) if ctx.thorough else tuple(o for o in ALPHA_SQLITE if o not in QUICK_DROPS), "cap_s": 900 if ctx.thorough else 240},
         {"name": "sqlite/deletes", "backend": "sqlite", "alphabet": ("del", "ins1", "get", "delx"), "seed_events": 70, "max_states": 6000},
         {"name": "peewee", "backend": "peewee", "alphabet": ALPHA_PEEWEE + (("bulk49", "bulk50") if ctx.thorough else ())},
     ]
